@@ -106,7 +106,9 @@ def run_part(ctx, quick):
     # regression corpus: minimal witnesses of the findings LISTED in known_findings.json (a witness whose
     # finding is not listed there is not run: its KNOWN-FINDING line would not be legitimate).  The slow
     # ones (runaway recursion: 30-60 CPU-s until the child dies, four times) only in the thorough tier.
-    listed = set(k["id"] for k in vlib.known_findings("C02") if k.get("status") == "known")
+    # Witnesses of FIXED findings stay in: they are ordinary regression inputs now (any crash or
+    # nondeterminism on them is a violation, no class recognises them any more).
+    listed = set(k["id"] for k in vlib.known_findings("C02") if k.get("status") in ("known", "fixed"))
     cheap = ("F-C02-1", "F-C02-4", "F-C02-8", "F-C02-9")
     wdir = os.path.join(vlib.VERIF, "corpus", "C02")
     witnesses, skipped_w = [], []
